@@ -580,10 +580,31 @@ def stable_batch(fn, attempts=3):
         discarded += 1
 
 
+def run_zygotes(cases, parallel=4):
+    """cases: [{'hashseed': s, 'job': job}] -> [(status, result)] in order.  One freshly started interpreter per hash seed
+    imports weasyprint once and forks a copy of itself for every job (impl_c19.zygote): each job runs in the state of
+    a fresh interpreter without paying the import again."""
+    seeds = sorted({c['hashseed'] for c in cases})
+    def weight(c):      # longest jobs first
+        j = c['job']
+        return -(sum(len(h['steps']) for h in j.get('histories', [])) + sum(x.get('ncalls', 1) for x in j.get('reuse', [])) +
+                 len(j.get('direct', {}).get('cases', [])) / 50.0)
+    order = {s: sorted([i for i, c in enumerate(cases) if c['hashseed'] == s], key=lambda i: weight(cases[i])) for s in seeds}
+    groups = [{'hashseed': s, 'jobs': [cases[i]['job'] for i in order[s]], 'parallel': parallel,
+               'timeout': 1500, 'job_timeout': 400} for s in seeds]
+    outs = common.run_impl('impl_c19', 'zygote', groups, limit=1600, chunksize=1)
+    res = [None] * len(cases)
+    for g, (st, o) in zip(groups, outs):
+        idx = order[g['hashseed']]
+        for k, i in enumerate(idx):
+            res[i] = ('ok', o[k]) if st == 'ok' else (st, {'crashed': True, 'attempts': [o]})
+    return res
+
+
 def stream_monitor(run, rng, ndocs, nhist, njobs):
     docs, jobs, cases = build_monitor(rng, ndocs, nhist, njobs)
     # the interpreters of one run must all see the same source tree: if /repo is edited meanwhile, run again (once)
-    outs, reruns = stable_batch(lambda: common.run_impl('impl_c19', 'spawn', cases, limit=700, chunksize=1))
+    outs, reruns = stable_batch(lambda: run_zygotes(cases))
     by_key, by_layout = {}, {}
     nsteps = 0
     seen = set()
@@ -835,7 +856,7 @@ def stream_names(run, rng, n):
                                                     'direct': {'fn': 'names_case', 'cases': cases}}} for s in range(4)]
     jobs += [{'hashseed': s, 'timeout': 300, 'job': {'docs': [], 'histories': [], 'module_snapshot': False,
                                                      'direct': {'fn': 'font_hashes', 'cases': font_docs}}} for s in range(4)]
-    outs, discarded = stable_batch(lambda: common.run_impl('impl_c19', 'spawn', jobs, limit=400, chunksize=1))
+    outs, discarded = stable_batch(lambda: run_zygotes(jobs))
     res = []
     for j, (st, o) in zip(jobs, outs):
         if st != 'ok' or o.get('crashed'):
@@ -885,7 +906,7 @@ def stream_names(run, rng, n):
     run.count('names-direct', len(kept) * 4 + 4, [tuple(map(tuple, c['calls'])) for c, _ in kept], samples=[kept[1][0] if len(kept) > 1 else kept[0][0]])
     run.stream_info('names-direct', hash_seeds=4, batches_discarded_because_the_source_tree_changed=discarded, distinct_set_iteration_orders_seen=len(orders),
                     rule='1..25 random naming calls on real Stream objects (clones through add_group/add_pattern share the images '
-                         'table), executed in 4 fresh interpreters with PYTHONHASHSEED 0..3: outputs identical, and equal to the model '
+                         'table), executed in 4 fresh interpreter states (one interpreter per PYTHONHASHSEED 0..3, forked per job): outputs identical, and equal to the model '
                          '(names_judge, Coq); fonts of a render with 4 families: hash/name identical under the 4 seeds')
 
 
@@ -1253,40 +1274,235 @@ def stream_probes(run):
                     'a witness that stops reproducing is recorded here, not failed')
 
 
+# ======================================================================================================================
+# stream 8: argument containers the caller reuses.  The SAME list of stylesheets (file names, pathlib paths, URLs, CSS
+# objects), list of attachments, options dict, FontConfiguration, CounterStyle and url_fetcher objects are handed to
+# 1..4 successive render() / write_pdf() calls.  (1) every container is unchanged after every call (items: same objects,
+# same types; registries stop growing after the first call); (2) call k gives what call 1 gave; (3) and what a copy of
+# a fresh interpreter gives with freshly built containers.
+
+PRE_ARGS = ('From Coq Require Import ZArith List Bool.\nRequire Import WV.model.C19Args.\nImport ListNotations.\nOpen Scope Z_scope.\n')
+
+
+def reuse_files():
+    """Written once per content (same path, same ctime for every interpreter of the run)."""
+    import hashlib
+    res = 'file://' + common.REPO + '/tests/resources/'
+    d = os.path.join(common.WORK, 'c19files')
+    os.makedirs(d, exist_ok=True)
+    texts = {
+        'u0.css': '@font-face { font-family: ff0; src: url(%sweasyprint.otf) }\n@counter-style cc0 { system: cyclic; symbols: "h"; suffix: "" }\n'
+                  '@page { size: 400px 200px; margin: 10px }\nbody { font-family: ff0; font-size: 20px; margin: 0 }\n'
+                  'ol { list-style: cc0 inside; margin: 0; padding: 0 }\n' % res,
+        'u2.css': '@font-face { font-family: ff2; src: url(%sweasyprint.otf) }\n.x { font-family: ff2; font-size: 16px }\n'
+                  '@counter-style cc2 { system: fixed; symbols: "a" "b" "c" }\nul { list-style: cc2 }\n' % res,
+        'u3.css': 'p { color: #246; margin: 2px 0 } @page { margin: 15px; @bottom-center { content: counter(page) } }\n'
+                  'span { display: inline-block; border: 1px solid }\n',
+        'a0.txt': 'hello attachment\n', 'a1.bin': 'second attachment \x01\x02\n'}
+    texts['u1.css'] = '@import url(%s);\np { text-decoration: underline }\n' % ('file://' + os.path.join(d, 'u2.css'))
+    paths = {}
+    for name, text in texts.items():
+        p = os.path.join(d, name)
+        if not os.path.exists(p) or open(p).read() != text:
+            open(p, 'w').write(text)
+        paths[name] = p
+    return paths
+
+
+REUSE_HTML = ('<html><head><style>h1 { font-size: 14px } %s</style></head><body><h1>abc</h1><span>abcdefgh</span> <span class=x>abcd</span>'
+              '<ol><li>abc</li><li>de</li></ol><ul><li>fgh</li></ul><p>%s</p>%s</body></html>')
+
+
+def gen_reuse(rng, paths):
+    n = rng.choice([1, 2, 2, 3, 3, 4])
+    sheets = []
+    for name in rng.sample(['u0.css', 'u1.css', 'u3.css', 'u2.css'], rng.randint(1, 3)):
+        kind = rng.choice(['filename', 'filename', 'path', 'url', 'css'] + (['fileobj'] if n == 1 else []))
+        sheets.append({'kind': kind, 'path': paths[name], 'name': name})
+    atts = None
+    if rng.random() < 0.45:
+        atts = [{'kind': rng.choice(['filename', 'filename', 'path', 'object']), 'path': paths[rng.choice(['a0.txt', 'a1.bin'])]}
+                for _ in range(rng.randint(1, 2))]
+    inline = rng.choice(['', '', '@font-face { font-family: ffi; src: url(weasyprint.otf) } h1 { font-family: ffi }',
+                         '@counter-style cci { system: cyclic; symbols: "*" } ul { list-style: cci }'])
+    opts = {}
+    if rng.random() < 0.3:
+        opts['presentational_hints'] = True
+    if rng.random() < 0.3:
+        opts['pdf_forms'] = True
+    if rng.random() < 0.3:
+        opts['uncompressed_pdf'] = True
+    if rng.random() < 0.2:
+        opts['custom_metadata'] = True
+    return {'html': REUSE_HTML % (inline, ' '.join(rng.choice(WORDS) for _ in range(rng.randint(2, 12))),
+                                  rng.choice(['', '<input value=abc>', '<table border=1 width=200><tr><td align=right>a</table>'])),
+            'sheets': sheets, 'attachments': atts, 'fc': rng.choice(['none', 'none', 'shared']), 'cs': rng.choice(['none', 'none', 'shared']),
+            'ncalls': n, 'api': rng.choice(['render', 'render', 'write']), 'html_obj': rng.choice(['shared', 'fresh']),
+            'opts': opts, 'fetcher': rng.choice(['default', 'custom'])}
+
+
+def reuse_value(obs):
+    return ('exc', tuple(obs['exc']['site'] or ()), obs['exc']['type']) if 'exc' in obs else ('ok', obs['pdf'], obs['len'], tuple(obs.get('layout', ())))
+
+
+def single_use_attachment(case, obs, k):
+    """mechanism of the listed finding: an Attachment OBJECT in the reused list, second or later write, contextlib's error"""
+    return k >= 1 and 'exc' in obs and obs['exc']['type'] == 'AttributeError' and (obs['exc']['site'] or [None, None, None])[2] == 'write_pdf_attachment' \
+        and '_GeneratorContextManager' in obs['exc']['msg'] and any(a['kind'] == 'object' for a in (case['attachments'] or []))
+
+
+def judge_reuse(run, case, o, ref, report_limit):
+    """Returns the list of (signature, what) for one case."""
+    bad = []
+    has_obj = any(a['kind'] == 'object' for a in (case['attachments'] or []))
+    for k, (obs, cont) in enumerate(zip(o['calls'], o['containers'])):
+        for flag, what in (('sheets_same', 'stylesheets list'), ('attachments_same', 'attachments list'), ('options_same', 'options'),
+                           ('css_objects_same', 'CSS objects in the list'), ('html_same', 'HTML tree')):
+            if not cont[flag]:
+                bad.append(('c19:argument-container-modified', 'call %d changed the caller\'s %s: %s' % (k + 1, what, cont['changed_items'])))
+        if not cont['attachment_objects_same']:
+            bad.append(('c19:attachment-object-single-use' if has_obj else 'c19:argument-container-modified',
+                        'call %d modified the caller\'s Attachment object (md5 set, source consumed)' % (k + 1)))
+    for k, reg in enumerate(o['registry'][1:], start=1):
+        if reg != o['registry'][0]:
+            bad.append(('c19:registry-grows-on-repeat', 'call %d changed the shared FontConfiguration/CounterStyle again: %s -> %s' % (
+                k + 1, o['registry'][0], reg)))
+    v0 = reuse_value(o['calls'][0])
+    for k, obs in enumerate(o['calls'][1:], start=1):
+        if reuse_value(obs) != v0:
+            if single_use_attachment(case, obs, k):
+                bad.append(('c19:attachment-object-single-use', 'call %d with the same attachments list raises %s' % (k + 1, obs['exc']['msg'][:80])))
+            else:
+                bad.append(('c19:reused-arguments-render-differs', 'call %d differs from call 1 with the very same argument objects: %s vs %s' % (
+                    k + 1, str(reuse_value(obs))[:120], str(v0)[:120])))
+    if ref is not None and reuse_value(ref['calls'][0]) != v0:
+        bad.append(('c19:reused-arguments-differ-from-fresh', 'call 1 differs from a fresh interpreter with fresh containers: %s vs %s' % (
+            str(v0)[:120], str(reuse_value(ref['calls'][0]))[:120])))
+    return bad
+
+
+def reuse_coq(case, o):
+    items = []
+    for i, sh in enumerate(case['sheets']):
+        if sh['kind'] == 'css':
+            items.append('Parsed %d (%d)' % (i, 0 if case['fc'] == 'shared' else -1))
+        else:
+            items.append('Raw %d' % i)
+    envs = [0] * case['ncalls'] if case['fc'] == 'shared' else list(range(1, case['ncalls'] + 1))
+    kinds = '; '.join('[%s]' % '; '.join('true' if x == 'parsed' else 'false' for x in c['sheet_kinds']) for c in o['containers'])
+    equal = all(reuse_value(x) == reuse_value(o['calls'][0]) for x in o['calls'])
+    return '([%s], [%s], [%s], %s)' % ('; '.join(items), '; '.join('(%d)' % e for e in envs), kinds, 'true' if equal else 'false')
+
+
+def stream_reuse(run, rng, n):
+    paths = reuse_files()
+    # the seeded shape first: a list of file names with parse-time rules, three renders, default font configuration
+    cases = [{'html': REUSE_HTML % ('', 'abc', ''), 'sheets': [{'kind': 'filename', 'path': paths['u0.css'], 'name': 'u0.css'}],
+              'attachments': None, 'fc': 'none', 'cs': 'none', 'ncalls': 3, 'api': 'render', 'html_obj': 'shared', 'opts': {}, 'fetcher': 'default'},
+             {'html': REUSE_HTML % ('', 'abc', ''), 'sheets': [{'kind': 'url', 'path': paths['u1.css'], 'name': 'u1.css'},
+                                                              {'kind': 'path', 'path': paths['u0.css'], 'name': 'u0.css'}],
+              'attachments': [{'kind': 'filename', 'path': paths['a0.txt']}], 'fc': 'none', 'cs': 'shared', 'ncalls': 2, 'api': 'write',
+              'html_obj': 'fresh', 'opts': {'presentational_hints': True}, 'fetcher': 'custom'}]
+    cases += [gen_reuse(rng, paths) for _ in range(n)]
+    jobs = []
+    per = 4
+    for j in range(0, len(cases), per):
+        jobs.append({'hashseed': (j // per) % 4, 'job': {'docs': [], 'histories': [], 'reuse': cases[j:j + per]}})
+    for i, c in enumerate(cases):      # reference: one call, fresh containers, its own copy of a fresh interpreter, another hash seed
+        ref = dict(c, ncalls=1)
+        jobs.append({'hashseed': (i // per + 1 + i % 3) % 4, 'job': {'docs': [], 'histories': [], 'reuse': [ref]}})
+    outs, discarded = stable_batch(lambda: run_zygotes(jobs))
+    results, refs = [], []
+    njobs_main = (len(cases) + per - 1) // per
+    ok = True
+    for (st, o) in outs[:njobs_main]:
+        if st != 'ok' or o.get('crashed'):
+            run.oblige('reuse:job-ran', False, str(o)[:2000])
+            ok = False
+            results += [None] * per
+            continue
+        results += o['reuse']
+        if o['module_mutated']:
+            run.fail('module-level state modified by rendering: %s' % o['module_mutated'], {'stream': 'reuse', 'what': o['module_mutated']},
+                     signature='c19:module-state-mutated')
+    for (st, o) in outs[njobs_main:]:
+        refs.append(o['reuse'][0] if st == 'ok' and not o.get('crashed') else None)
+    reported = {}
+    coq, kept = [], []
+    nrenders = 0
+    shapes = set()
+    for c, o, ref in zip(cases, results, refs):
+        if o is None:
+            continue
+        nrenders += len(o['calls']) + 1
+        shapes.add((tuple(s_['kind'] for s_ in c['sheets']), tuple(a['kind'] for a in (c['attachments'] or [])), c['fc'], c['cs'], c['ncalls'], c['api']))
+        for sig, what in judge_reuse(run, c, o, ref, 3):
+            reported[sig] = reported.get(sig, 0) + 1
+            if reported[sig] <= 2:
+                report(run, what, {'stream': 'reuse', 'case': c, 'observed': {'calls': o['calls'], 'containers': o['containers']}}, sig)
+        if not any(a['kind'] == 'object' for a in (c['attachments'] or [])):
+            coq.append(reuse_coq(c, o))
+            kept.append((c, o))
+    try:
+        masks = common.eval_cases('c19args', PRE_ARGS, 'acase', coq, 'args_judge')
+        mism = [(c, [x['sheet_kinds'] for x in o['containers']]) for (c, o), m in zip(kept, masks) if m & 1]
+        run.oblige('corr:reuse(model render_call: the caller\'s list after each call vs the implementation)', not mism, 'first disagreements: %s' % mism[:2])
+        for (c, o), m in zip(kept, masks):
+            if m & 2 and not reported.get('c19:reused-arguments-render-differs'):
+                reported['c19:reused-arguments-render-differs'] = 1
+                report(run, 'calls with the same argument objects give different results (the model says equal)',
+                       {'stream': 'reuse', 'case': c, 'observed': {'calls': o['calls'], 'containers': o['containers']}},
+                       'c19:reused-arguments-render-differs')
+    except RuntimeError as exc:
+        run.oblige('corr:reuse', False, str(exc))
+    run.count('reuse', nrenders, [('shape',) + tuple(map(str, s_)) for s_ in shapes], samples=[cases[0], cases[-1]])
+    run.stream_info('reuse', cases=len(cases), renders=nrenders, shapes=len(shapes), findings=reported,
+                    batches_discarded_because_the_source_tree_changed=discarded,
+                    rule='one list of 1..3 stylesheets (file name / pathlib path / file: URL / CSS object / file object for single calls) with '
+                         '@font-face, @counter-style, @import, @page rules, optionally one list of 1..2 attachments (file name / path / '
+                         'Attachment object), one options dict, default or shared FontConfiguration, default or shared CounterStyle, default '
+                         'or custom url_fetcher: the same objects given to 1..4 render()+write_pdf() or write_pdf() calls on one or fresh HTML '
+                         'objects; snapshots of every container (item identity, type, value) after each call; results compared with call 1 and '
+                         'with a single call in another copy of a fresh interpreter (other hash seed, fresh containers); Coq: args_judge')
+
+
 def check(run):
+    import time
     rng = random.Random(run.seed * 7919 + 19)
     thorough = run.tier == 'thorough'
     only = os.environ.get('C19_ONLY', '').split(',') if os.environ.get('C19_ONLY') else None
+    t0 = time.time()
     if not only or 'prove' in only:
-        common.prove(run, 'C19', ['model/C19Cache.vo', 'model/C19Names.vo', 'model/C19Pdf.vo', 'model/C19Relayout.vo'])
+        common.prove(run, 'C19', ['model/C19Cache.vo', 'model/C19Names.vo', 'model/C19Pdf.vo', 'model/C19Relayout.vo', 'model/C19Args.vo'])
+    run.stream_info('prove', seconds=round(time.time() - t0, 1))
     run.trusted += ['Coq 8.16.1 kernel (coqc); vm_compute for the cases.v evaluation',
                     'hand models coq/model/C19*.v, tied to /repo only by the direct-call correspondence streams',
-                    'harness/impl_c19.py (runner, deep description of objects, stubs), harness/pdfread.py, the Python judges of the '
-                    'zoom-render / copy-render streams and of the differential monitor',
+                    'harness/impl_c19.py (runner, zygote/fork, deep description of objects, stubs), harness/pdfread.py, the Python judges '
+                    'of the zoom-render / copy-render / reuse streams and of the differential monitor',
                     'CPython, Pango, fontconfig, Pillow, fontTools as installed: the monitor compares executions, it does not model them']
     run.assumptions += ['the url_fetcher and the decoders are deterministic functions (model of the cache); a flaky fetcher is outside',
                         'hash-seed independence, module-level state, dict/set iteration order, object addresses: differential only',
+                        'a copy (fork) of an interpreter that imported weasyprint and rendered nothing stands for a fresh interpreter',
                         'relayout model: row container, cross axis only, box-sizing content-box, no auto margins, min/max-height auto']
     k = 8 if thorough else 1
-
-    def want(name):
-        return not only or name in only
-    if want('cache'):
-        stream_cache(run, rng, 400 * k)
-    if want('names'):
-        stream_names(run, rng, 300 * k)
-    if want('zoomd'):
-        stream_zoom_direct(run, rng, 200 * k)
-    if want('zoomr'):
-        stream_zoom_render(run, rng, 8 * k)
-    if want('copy'):
-        stream_copy(run, rng, 150 * k)
-    if want('relayout'):
-        stream_relayout(run, rng, 60 * k)
-    if want('probes'):
-        stream_probes(run)
-    if want('monitor'):
-        stream_monitor(run, rng, 24 * k, 96 * k, 16 * (4 if thorough else 1))
+    # quick-tier volumes are sized for ~150 core-seconds in total; the thorough tier has 8x the cases
+    plan = [('cache', lambda: stream_cache(run, rng, 200 * k)),
+            ('names', lambda: stream_names(run, rng, 150 * k)),
+            ('zoomd', lambda: stream_zoom_direct(run, rng, 120 * k)),
+            ('zoomr', lambda: stream_zoom_render(run, rng, (12 if thorough else 4))),
+            ('copy', lambda: stream_copy(run, rng, 100 * k)),
+            ('relayout', lambda: stream_relayout(run, rng, 40 * k)),
+            ('probes', lambda: stream_probes(run)),
+            ('reuse', lambda: stream_reuse(run, rng, 38 * k)),
+            ('monitor', lambda: stream_monitor(run, rng, 16 * k, 56 * k, 16 * (4 if thorough else 1)))]
+    names = {'cache': 'cache-direct', 'names': 'names-direct', 'zoomd': 'zoom-direct', 'zoomr': 'zoom-render', 'copy': 'copy-render',
+             'relayout': 'relayout', 'probes': 'probes', 'reuse': 'reuse', 'monitor': 'monitor'}
+    for name, fn in plan:
+        if only and name not in only:
+            continue
+        t = time.time()
+        fn()
+        run.stream_info(names[name], seconds=round(time.time() - t, 1))
 
 
 def _obs_value(obs):
@@ -1334,7 +1550,7 @@ def replay(data):
     if st == 'names-direct':
         jobs = [{'hashseed': s, 'job': {'docs': [], 'histories': [], 'module_snapshot': False,
                                         'direct': {'fn': 'names_case', 'cases': [d['case']]}}} for s in range(4)]
-        outs = common.run_impl('impl_c19', 'spawn', jobs, limit=300, chunksize=1)
+        outs = run_zygotes(jobs)
         res = [json.dumps(o['direct'][0]) for _, o in outs]
         print('replay: outputs under 4 hash seeds:', res)
         return 1 if len(set(res)) > 1 else 0
@@ -1361,6 +1577,20 @@ def replay(data):
             return 1 if s_ != 'ok' or o['once']['lines'] != o['twice']['lines'] else 0
         print('replay: grid', common.run_impl('impl_c19', 'relayout_grid', [{'axis': 'x'}, {'axis': 'y'}], limit=60))
         return 1
+    if st == 'reuse':
+        reuse_files()
+        c = d['case']
+        outs = run_zygotes([{'hashseed': 1, 'job': {'docs': [], 'histories': [], 'reuse': [c]}},
+                            {'hashseed': 2, 'job': {'docs': [], 'histories': [], 'reuse': [dict(c, ncalls=1)]}}])
+        if any(s_ != 'ok' or o.get('crashed') for s_, o in outs):
+            print('replay: interpreter failed', outs)
+            return 1
+        o, ref = outs[0][1]['reuse'][0], outs[1][1]['reuse'][0]
+        bad = judge_reuse(run, c, o, ref, 10)
+        for sig, what in bad:
+            print('replay:', sig, what)
+        print('replay: calls', [reuse_value(x) for x in o['calls']], 'reference', reuse_value(ref['calls'][0]))
+        return 1 if bad else 0
     if st == 'probes':
         (s_, o), = common.run_impl('impl_c19', 'probe', [{'name': d['probe']}], limit=120)
         pred = ([p for p in PROBES if p[0] == d['probe']] or [(0, 0, lambda o: o['raises'] or not o.get('copy_ok'))])[0][2]
